@@ -95,3 +95,94 @@ func VH_C07_expirePreservesInvariant() bool {
 	}
 	return true
 }
+
+// ---- retransmission machinery (timers are modelled: time.AfterFunc captures the callback,
+// vFireTimer runs it as the runtime would on expiry, vTimerLastReset observes the last Reset)
+
+type vCtxC struct {
+	done chan struct{}
+	err  error
+}
+
+func (c vCtxC) Deadline() (time.Time, bool) { return time.Time{}, false }
+func (c vCtxC) Done() <-chan struct{}       { return c.done }
+func (c vCtxC) Err() error                  { return c.err }
+func (c vCtxC) Value(key any) any           { return nil }
+
+func vCancelledCtx() vCtxC {
+	d := make(chan struct{})
+	close(d)
+	return vCtxC{done: d, err: vErrDecrypt}
+}
+
+//verif: replay=none cover=rearmed,one-shot bounds="p2pke.Timer: a pending timer that fires runs its callback once; a callback that re-arms its own timer leaves it pending and it fires again; a stopped timer does nothing"
+func VH_C07_timerRearmFromCallback() bool {
+	calls := 0
+	rearm := vBool()
+	var t *Timer
+	t = newTimer(func() {
+		calls++
+		if rearm && calls == 1 {
+			t.Reset(5)
+		}
+	})
+	vAssert(!t.IsPending(), "new-timer-is-pending")
+	t.Reset(1)
+	vAssert(t.IsPending(), "reset-timer-not-pending")
+	vFireTimer(t.timer)
+	vAssert(calls == 1, "pending-timer-fired-without-running-its-callback")
+	if rearm {
+		vCover("rearmed")
+		vAssert(t.IsPending(), "timer-re-armed-from-its-own-callback-is-not-pending")
+		vFireTimer(t.timer)
+		vAssert(calls == 2, "re-armed-timer-did-not-run-again")
+	} else {
+		vCover("one-shot")
+		vAssert(!t.IsPending(), "timer-still-pending-after-firing")
+	}
+	t.Reset(1)
+	t.Stop()
+	vFireTimer(t.timer)
+	vAssert(calls <= 2 && !t.IsPending(), "stopped-timer-ran")
+	return true
+}
+
+//verif: replay=none time=concrete cover=armed,unarmed bounds="Channel.getOrInit (the core of Send/WaitReady) on any channel with neither a current nor a pending session: an immediate handshake is scheduled (rekey timer reset to 0) whether or not the periodic rekey timer is already armed"
+func VH_C07_sendWithoutSessionStartsHandshakeNow() bool {
+	e := vChannel()
+	c := e.c
+	vAssume(c.sessions[1].Session == nil && c.sessions[2].Session == nil)
+	c.rekeyTimer = &Timer{timer: new(time.Timer)}
+	if vBool() {
+		c.rekeyTimer.Reset(c.params.RekeyAfterTime) // the periodic rekey of an earlier session is still armed
+		vCover("armed")
+	} else {
+		vCover("unarmed")
+	}
+	_, err := c.getOrInit(vCancelledCtx())
+	vAssert(err != nil, "getOrInit-succeeded-without-a-session")
+	vAssert(vTimerLastReset(c.rekeyTimer.timer) == 0, "no-immediate-handshake-scheduled-although-no-session-exists")
+	return true
+}
+
+//verif: replay=none time=concrete cover=sent,idle bounds="Channel.onHandshake from any invariant state: every not-ready session's current handshake message is sent, and the handshake timer is re-armed with the backoff exactly when something was sent"
+func VH_C07_handshakeRetransmission() bool {
+	e := vChannel()
+	c := e.c
+	c.handshakeTimer = &Timer{timer: new(time.Timer)}
+	want := 0
+	for i := 0; i < 3; i++ {
+		if s := c.sessions[i].Session; s != nil && !s.IsReady() && len(s.Handshake(nil)) > 0 {
+			want++
+		}
+	}
+	c.onHandshake()
+	vAssert(len(e.sent) == want, "pending-handshake-message-not-retransmitted")
+	if want > 0 {
+		vCover("sent")
+		vAssert(c.handshakeTimer.IsPending() && vTimerLastReset(c.handshakeTimer.timer) == c.params.HandshakeBackoff, "handshake-timer-not-re-armed-after-sending")
+	} else {
+		vCover("idle")
+	}
+	return true
+}
